@@ -57,7 +57,7 @@ type Req struct {
 	Asc    bool  `json:"asc,omitempty"`
 	Offset int   `json:"offset,omitempty"`
 	Size   int   `json:"size,omitempty"`
-	Quote  []int `json:"quote,omitempty"` // per name: 0 canonical (bare or strconv.Quote), 1 "..", 2 '..', 3 `..`, 4 ".." with a raw '*'
+	Quote  []int `json:"quote,omitempty"` // per name: 0 canonical (bare or strconv.Quote), 1 "..", 2 '..', 3 `..`, 4 ".." with a raw '*', 5 ".." with every non-ASCII rune as \\uXXXX / \\UXXXXXXXX
 	Sep    int   `json:"sep,omitempty"`
 	Upper  bool  `json:"upper,omitempty"`
 }
@@ -184,7 +184,7 @@ func genReq(t *rapid.T, c *Case, keysOf [][]string) Req {
 		r.Offset = rapid.IntRange(0, 2).Draw(t, "offset") / 2
 		r.Size = rapid.IntRange(1, len(c.Docs)+1).Draw(t, "size")
 		for range r.Fields {
-			r.Quote = append(r.Quote, rapid.IntRange(0, 4).Draw(t, "quote"))
+			r.Quote = append(r.Quote, rapid.IntRange(0, 5).Draw(t, "quote"))
 		}
 		r.Sep = rapid.IntRange(0, 3).Draw(t, "sep")
 		r.Upper = rapid.IntRange(0, 7).Draw(t, "upper") == 7
@@ -263,6 +263,10 @@ func renderName(s string, q int) string {
 			b.WriteString(`\t`)
 		case r < 0x20 || r == 0x7f:
 			fmt.Fprintf(&b, `\x%02x`, r)
+		case r >= 0x80 && q == 5 && r <= 0xffff: // the code point written as an escape, as ASCII-only clients do
+			fmt.Fprintf(&b, `\u%04x`, r)
+		case r >= 0x80 && q == 5:
+			fmt.Fprintf(&b, `\U%08x`, r)
 		default:
 			b.WriteRune(r)
 		}
